@@ -75,6 +75,14 @@ func (o *scriptedOrigin) RoundTrip(req *http.Request) (*http.Response, error) {
 	if e.fail == "transport" {
 		return nil, errors.New("connection reset")
 	}
+	if e.fail == "garbage" || e.fail == "empty-body" {
+		// a 200 answer that permits caching but whose body is not a JSON document: a failed response all the same
+		body := `{"@context": {"x": "urn:x"}, "v": `
+		if e.fail == "empty-body" {
+			body = ""
+		}
+		return &http.Response{StatusCode: 200, Body: io.NopCloser(strings.NewReader(body)), Header: policyHeaders("max-age=3600", time.Now()), Request: req}, nil
+	}
 	body := fmt.Sprintf(`{"@context": {"x": "urn:x"}, "v": %d}`, e.ver)
 	return &http.Response{StatusCode: 200, Body: io.NopCloser(bytes.NewReader([]byte(body))), Header: policyHeaders(e.policy, time.Now()), Request: req}, nil
 }
@@ -254,7 +262,7 @@ func emitLoaderHistory(out *Out, r *Rng) {
 		case x < 28:
 			o.mu.Lock()
 			old := o.docs[keyOf(u)]
-			ne := &orgEntry{fail: []string{"404", "500", "transport"}[r.Intn(3)]}
+			ne := &orgEntry{fail: []string{"404", "500", "transport", "garbage", "empty-body"}[r.Intn(5)]}
 			if old != nil {
 				ne.ver = old.ver
 			}
